@@ -25,7 +25,7 @@ extern "C" __attribute__((used, visibility("default"))) const char* __asan_defau
   return "exitcode=77:detect_leaks=0:allocator_may_return_null=1:abort_on_error=0:handle_abort=0:detect_stack_use_after_return=0";
 }
 extern "C" __attribute__((used, visibility("default"))) const char* __ubsan_default_options() {
-  return "print_stacktrace=1:halt_on_error=1:exitcode=77";
+  return "print_stacktrace=1:halt_on_error=1:abort_on_error=1";  // abort -> SIGABRT -> on_signal (gcc's libubsan has its own Die(), the ASan death callback is not called)
 }
 extern "C" __attribute__((used, visibility("default"))) const char* __tsan_default_options() {
   return "exitcode=77:halt_on_error=1:report_signal_unsafe=0";
